@@ -267,7 +267,7 @@ class Repo:
         if module is None:
             module = self.module_of(node)
         return '%s:%s' % (os.path.relpath(module.path, self.root) if module else '?',
-                          getattr(node, 'lineno', '?'))
+                          getattr(node, '_src_line', getattr(node, 'lineno', '?')))
 
     def module_of(self, node):
         n = node
